@@ -221,11 +221,17 @@ impl BitFont {
     //const PSF2_STARTSEQ: u8 = 0xFE;
 
     fn load_psf2(font_name: impl Into<String>, data: &[u8]) -> EngineResult<Self> {
+        if data.len() < 32 {
+            return Err(FontError::LengthMismatch(data.len(), 32).into());
+        }
         let version = u32::from_le_bytes(data[4..8].try_into().unwrap());
         if version > BitFont::PSF2_MAXVERSION {
             return Err(FontError::UnsupportedVersion(version).into());
         }
         let headersize = u32::from_le_bytes(data[8..12].try_into().unwrap()) as usize;
+        if headersize > data.len() {
+            return Err(FontError::LengthMismatch(data.len(), headersize).into());
+        }
         // let flags = u32::from_le_bytes(data[12..16].try_into().unwrap());
         let length = u32::from_le_bytes(data[16..20].try_into().unwrap()) as i32;
         let charsize = u32::from_le_bytes(data[20..24].try_into().unwrap()) as i32;
